@@ -39,6 +39,29 @@ def merge(total, r):
     return total
 
 
+def library_crash(mod, unit, exc):
+    """An ordinary exception whose innermost frame lies inside the parglare
+    package and that the check did not expect (it escaped from run_unit) is
+    a deviation of that unit: the library failed with an internal error on an
+    input of the property's domain.  Returns a unit result carrying one
+    violation, or None when the exception was raised by harness code."""
+    from pgmc.findings import digest
+    tb = traceback.extract_tb(exc.__traceback__)
+    if not tb or "/parglare/" not in tb[-1].filename.replace("\\", "/"):
+        return None
+    detail = {"type": type(exc).__name__,
+              "where": f"{tb[-1].filename.rsplit('/', 1)[-1]}:{tb[-1].name}"}
+    return {"violations": [{
+        "property": getattr(mod, "PROP", "?"),
+        "what": "the library raised an internal error inside this unit "
+                "of the exploration",
+        "finding_class": None, "digest": digest(detail),
+        "case": {"unit": unit, "exception": f"{type(exc).__name__}: "
+                 f"{str(exc)[:200]}", "raised_in": detail["where"]},
+        "detail": detail}],
+        "violation_count": 1, "known_seen": {}, "library_crash_units": 1}
+
+
 def _worker(modname, conn, mem_gb):
     signal.signal(signal.SIGINT, signal.SIG_IGN)
     if mem_gb:
@@ -64,6 +87,12 @@ def _worker(modname, conn, mem_gb):
             res = mod.run_unit(unit)
             res["unit_wall_max"] = [round(time.time() - t0, 2), idx]
             conn.send(("done", idx, res))
+        except Exception as e:      # noqa: BLE001
+            res = library_crash(mod, unit, e)
+            if res is None:
+                conn.send(("error", idx, traceback.format_exc()))
+            else:
+                conn.send(("done", idx, res))
         except BaseException:
             conn.send(("error", idx, traceback.format_exc()))
 
@@ -177,5 +206,10 @@ def run_inline(modname, units):
         mod.worker_init()
     results = {}
     for i, u in enumerate(units):
-        results[i] = mod.run_unit(u)
+        try:
+            results[i] = mod.run_unit(u)
+        except Exception as e:      # noqa: BLE001
+            results[i] = library_crash(mod, u, e)
+            if results[i] is None:
+                raise
     return results, {}
